@@ -407,7 +407,7 @@ func Run(r *mon.Run) {
 	ex := r.Pick(9, 14)
 	samples := r.Pick(6, 150)
 
-	sizes := []int{0, 1, 2, 127, 128, 129, 300}
+	sizes := []int{0, 1, 2, 63, 64, 65, 127, 128, 129, 255, 256, 257, 300, 510, 511, 512, 513, 1023, 1024, 1025, 4095, 4096, 16383, 16384, 16385}
 	// 1. short proto sequences, exhaustive partitions
 	var seqs [][]int
 	for _, a := range []int{0, 1, 2, 3} {
@@ -439,7 +439,24 @@ func Run(r *mon.Run) {
 			msgs = append(msgs, payload(g.rng, sizes[g.rng.Intn(len(sizes))]))
 		}
 		msgs = nonNil(msgs)
-		g.sweep("proto", msgs, protoStream(msgs), 4096, "ok", 0, "boundary", ex, samples)
+		g.sweep("proto", msgs, protoStream(msgs), 1<<20, "ok", 0, "boundary", ex, samples)
+	}
+	// 2b. every size up to 1100 (thorough: 2100) once, each followed by two
+	// small messages so that a framing slip at one size is seen by the next
+	// reads; one-read and byte-wise schedules only
+	maxSize := r.Pick(1100, 2100)
+	for n := 0; n <= maxSize; n++ {
+		msgs := [][]byte{payload(g.rng, n), payload(g.rng, 3), payload(g.rng, 1)}
+		st := protoStream(msgs)
+		for _, cuts := range [][]int{{len(st)}, nil} {
+			c := cuts
+			if c == nil {
+				c = []int{1 + g.rng.Intn(7), 1 + g.rng.Intn(200)}
+			}
+			for _, ewd := range []bool{false, true} {
+				g.run(&Case{Codec: "proto", Msgs: msgs, Stream: st, CapExtra: []int{0, 64, 4096}[n%3], Cuts: c, EOFWithData: ewd, Limit: 1 << 20, Expect: "ok", Class: "size-sweep"})
+			}
+		}
 	}
 	// 3. limits around each size
 	for _, n := range []int{1, 2, 127, 128, 129, 300} {
